@@ -41,6 +41,9 @@ func distinctKinds(rt *rapid.T, n int) []*gen.Kind {
 			fam = "enum-int"
 		case strings.HasPrefix(b, "Decimal"):
 			fam = "decimal"
+		case strings.HasPrefix(b, "Interval"):
+			// ColInterval is an inferable target: it adopts the scale of the server's type
+			fam = "interval"
 		}
 		if seen[fam] {
 			continue
